@@ -88,9 +88,21 @@ class Equip:
                 raise RuntimeError("more than one S6F11 for one trigger")
             out = self.report_lit(rep[0]) if rep else "RNothing"
             lit = f"(RTrigger {idl(op[1])})"
+        elif kind == "trigger_many":
+            # one call with several (distinct) events: each of them is due its own S6F11, whatever the others are
+            self.rig.handler.trigger_collection_events(list(op[1]))
+            if not self.rig.settle():
+                raise RuntimeError("rig did not settle after trigger")
+            rep = [b for b in self.rig.new_frames() if (b.header.stream, b.header.function) == (6, 11)]
+            by_ce = {}
+            for b in rep:
+                by_ce.setdefault(plain(self.decode(b).get()["CEID"]), []).append(b)
+            if any(len(v) > 1 for v in by_ce.values()) or any(k not in op[1] for k in by_ce):
+                raise RuntimeError("S6F11 for an event that was not triggered, or two for one event")
+            return [(f"(RTrigger {idl(ce)})", self.report_lit(by_ce[ce][0]) if ce in by_ce else "RNothing") for ce in op[1]]
         else:
             raise ValueError(kind)
-        return lit, out
+        return [(lit, out)]
 
     def ack(self, frames, sf):
         hit = [b for b in frames if (b.header.stream, b.header.function) == sf]
@@ -107,12 +119,13 @@ def run_history(ops):
             if op[0] == "set":
                 eq.set_value(op[1], op[2])
                 continue
-            lit, out = eq.do(op)
+            pairs = eq.do(op)
             reports, links = eq.state()
             vals = "[" + ";".join(f"({idl(k)}, {L.z(v)})" for k, v in eq.values.items()) + "]"
-            steps.append("{| q_op := " + lit + "; q_values := " + vals + "; q_out := " + out + "; q_reports := ["
-                         + ";".join(f"({idl(k)}, {idsl(vs)})" for k, vs in reports) + "]; q_links := ["
-                         + ";".join(f"({idl(k)}, ({idsl(rs)}, {L.bool_(en)}))" for k, rs, en in links) + "] |}")
+            for lit, out in pairs:
+                steps.append("{| q_op := " + lit + "; q_values := " + vals + "; q_out := " + out + "; q_reports := ["
+                             + ";".join(f"({idl(k)}, {idsl(vs)})" for k, vs in reports) + "]; q_links := ["
+                             + ";".join(f"({idl(k)}, ({idsl(rs)}, {L.bool_(en)}))" for k, rs, en in links) + "] |}")
     finally:
         eq.rig.stop()
     return steps
@@ -148,14 +161,19 @@ def rand_ops(rnd, n):
             ops.append(("enable", rnd.random() < 0.75, which))
         elif c < 0.82:
             ops.append(("request", rnd.choice(CEIDS + [7])))
-        elif c < 0.92:
+        elif c < 0.88:
             ops.append(("trigger", rnd.choice(CEIDS)))
+        elif c < 0.93:
+            ops.append(("trigger_many", rnd.sample(CEIDS + [3], rnd.choice([2, 3, 4]))))
         else:
             ops.append(("set", rnd.choice(VIDS), rnd.randint(0, 1000)))
     return ops
 
 
 DIRECTED = [
+    # several events in one trigger call: the enabled ones are reported, wherever the others stand in the list
+    [("define", [(1, [10]), (2, [20])]), ("link", [(1, [1]), (2, [2]), ("ce", [1, 2])]), ("enable", True, [1]), ("trigger_many", [2, 1]), ("trigger_many", [3, "ce", 1, 2]),
+     ("enable", True, ["ce"]), ("trigger_many", [2, "ce", 1]), ("enable", False, [1]), ("trigger_many", [1, 2, "ce"]), ("trigger_many", [1, "ce"])],
     # define, link, enable, read, delete one, read, delete all
     [("set", 10, 7), ("set", 20, 9), ("define", [(1, [10, 20]), ("r", ["sx"])]), ("link", [(1, [1, "r"])]), ("enable", True, []), ("request", 1), ("trigger", 1),
      ("set", 10, 8), ("request", 1), ("define", [(1, [])]), ("request", 1), ("trigger", 1), ("define", []), ("request", 1)],
